@@ -336,6 +336,18 @@ func (e *Engine) libCall(st *State, fr *Frame, name string, args []Val, c *ssa.C
 		return one(SliceV{Base: s.Base, Off: s.Off, Len: k, Cap: s.Cap, Elem: s.Elem})
 	case "time.Unix":
 		return one(TimeV{Sec: asTerm(args[0])})
+	case "time.Now":
+		return one(TimeV{Sec: Sym(fresh("now"), 64)})
+	case "(time.Time).UTC":
+		t := args[0].(TimeV)
+		return one(TimeV{Sec: t.Sec, Local: true, Zone: "utc"})
+	case "(time.Time).Zone":
+		// the zone in force at that instant: abstract name and offset
+		t := args[0].(TimeV)
+		DeclareUF("tmZoneOffset", []string{"I64"}, "I64")
+		return one(e.sliceOfText(st, []Piece{{K: "opaque", ID: -7}}, true), UF("tmZoneOffset", 64, t.Sec))
+	case "(time.Time).Unix":
+		return one(args[0].(TimeV).Sec)
 	case "(time.Time).Local":
 		t := args[0].(TimeV)
 		return one(TimeV{Sec: t.Sec, Local: true})
@@ -350,8 +362,10 @@ func (e *Engine) libCall(st *State, fr *Frame, name string, args []Val, c *ssa.C
 		}
 		var out []Val
 		for _, f := range fs {
-			DeclareUF(f, []string{"I64"}, "I64")
-			u := UF(f, 64, t.Sec)
+			// broken-down fields are abstract functions of the instant, one family per zone (local / UTC)
+			fn := f + t.Zone
+			DeclareUF(fn, []string{"I64"}, "I64")
+			u := UF(fn, 64, t.Sec)
 			st.assumeT(timeRange(f, u))
 			out = append(out, u)
 		}
